@@ -147,6 +147,22 @@ func VerifValueCode(v *VMValue) ([]VerifOp, bool) {
 	return nil, false
 }
 
+// VerifOpAt returns the opcode about to be dispatched at pc (-1 when out of range).
+func (ctx *Context) VerifOpAt(pc int) int {
+	if pc < 0 || pc >= ctx.codeIndex || pc >= len(ctx.code) {
+		return -1
+	}
+	return int(ctx.code[pc].T)
+}
+
+// VerifOpName names an opcode.
+func VerifOpName(t int) string {
+	if n, ok := verifOpNames[CodeType(t)]; ok {
+		return n
+	}
+	return "@raw"
+}
+
 // VerifResetForRerun clears the per-evaluation counters that Parse resets, so
 // that RunAfterParsed can be repeated on already-parsed code.
 func (ctx *Context) VerifResetForRerun() {
